@@ -300,6 +300,7 @@ func c02(r *core.Report) {
 	c02Term(r)
 	c02Backtrack(r)
 	resetScope(r, "C02.resetscope")
+	c02Text(r)
 }
 
 // c02Term: resolution terminates – every recursive descent in the resolve family is on the finite
@@ -1082,4 +1083,137 @@ func lazyInitGuard(p *core.Prog, caller *ssa.Function, site ssa.CallInstruction,
 		}
 	}
 	return false
+}
+
+// c02Text: two places where a reference's text decides which object is read.
+func c02Text(r *core.Report) {
+	p := r.Prog
+	info := p.Pkg("openapi3").TypesInfo
+	r.RunRule("C02.decoded", "the JSON pointer that is drilled into the document is the percent-decoded fragment: in resolveComponent the string that is split into pointer tokens is assigned only from the Fragment field of a parsed url.URL (net/url decodes it) or from constants — `#/paths/~1pets~1%7Bid%7D` designates the key `/pets/{id}`", 1, func() {
+		fd := p.DeclOf("openapi3", "Loader.resolveComponent")
+		ff := core.NewFuncFacts(p, info, fd)
+		n := 0
+		ast.Inspect(fd.Body, func(nd ast.Node) bool {
+			c, ok := nd.(*ast.CallExpr)
+			if !ok || len(c.Args) != 2 {
+				return true
+			}
+			f := core.CalleeOf(info, c)
+			if f == nil || f.FullName() != "strings.Split" {
+				return true
+			}
+			if s, ok := strConst(info, c.Args[1]); !ok || s != "/" {
+				return true
+			}
+			id := core.RootIdent(c.Args[0])
+			if id == nil {
+				return true
+			}
+			n++
+			key := fmt.Sprintf("decoded:split#%d", n)
+			o := info.ObjectOf(id)
+			bad, good := "", false
+			for _, a := range ff.Assigns(o) {
+				if a.Rhs == nil {
+					bad = "a multi-value assignment"
+					continue
+				}
+				if _, isConst := strConst(info, a.Rhs); isConst {
+					continue
+				}
+				if sel, ok := ast.Unparen(a.Rhs).(*ast.SelectorExpr); ok && sel.Sel.Name == "Fragment" {
+					if nn := core.NamedOf(info.TypeOf(sel.X)); nn != nil && nn.Obj().Pkg() != nil && nn.Obj().Pkg().Path() == "net/url" {
+						good = true
+						continue
+					}
+				}
+				if ce, ok := ast.Unparen(a.Rhs).(*ast.CallExpr); ok {
+					if cf := core.CalleeOf(info, ce); cf != nil && (cf.FullName() == "net/url.PathUnescape" || cf.FullName() == "net/url.QueryUnescape") {
+						good = true
+						continue
+					}
+				}
+				bad = core.ExprStr(a.Rhs)
+			}
+			switch {
+			case bad != "":
+				r.Bad(key, p.Pos(c.Pos()), fmt.Sprintf("the pointer split here (%s) is assigned from %s, not from the decoded Fragment of a parsed URL: a same-document reference written percent-encoded (`#/paths/~1pets~1%%7Bid%%7D`, `#/components/schemas/Pet%%20Record`) is looked up under its encoded spelling and fails to resolve, or resolves to another key", id.Name, bad))
+			case good:
+				r.OK(key, p.Pos(c.Pos()), "tokens come from url.URL.Fragment")
+			default:
+				r.Unknown(key, p.Pos(c.Pos()), "no assignment of the split string found")
+			}
+			return true
+		})
+		if n == 0 {
+			core.Fail("resolveComponent no longer splits a pointer with strings.Split(x, \"/\")")
+		}
+	})
+	r.RunRule("C02.cachekey", "the read cache is keyed by the whole location: in every function of openapi3 that returns a ReadFromURIFunc and keeps the bytes read in a map, the key used for the map is the String() of the very *url.URL that is handed to the underlying reader — a key rebuilt from some of its components (scheme, host, path) makes locations that differ elsewhere (query string, opaque part) share one entry", 1, func() {
+		rf := p.NamedType("openapi3", "ReadFromURIFunc")
+		n := 0
+		for _, d := range p.AllDecls("openapi3") {
+			if d.Body == nil || d.Type.Results == nil || len(d.Type.Results.List) != 1 || !types.Identical(info.TypeOf(d.Type.Results.List[0].Type), rf) {
+				continue
+			}
+			ast.Inspect(d.Body, func(nd ast.Node) bool {
+				fl, ok := nd.(*ast.FuncLit)
+				if !ok {
+					return true
+				}
+				// the location parameter of the closure
+				var loc types.Object
+				for _, f := range fl.Type.Params.List {
+					if pt, ok := info.TypeOf(f.Type).(*types.Pointer); ok {
+						if nn := core.NamedOf(pt); nn != nil && nn.Obj().Name() == "URL" && len(f.Names) == 1 {
+							loc = info.ObjectOf(f.Names[0])
+						}
+					}
+				}
+				if loc == nil {
+					return true
+				}
+				ff := core.NewFuncFacts(p, info, d)
+				ast.Inspect(fl.Body, func(m ast.Node) bool {
+					ix, ok := m.(*ast.IndexExpr)
+					if !ok {
+						return true
+					}
+					mt, ok := info.TypeOf(ix.X).Underlying().(*types.Map)
+					if !ok {
+						return true
+					}
+					if sl, ok := mt.Elem().Underlying().(*types.Slice); !ok || !types.Identical(sl.Elem(), types.Typ[types.Byte]) {
+						return true
+					}
+					n++
+					key := fmt.Sprintf("cachekey:%s#%d", core.FuncName(d), n)
+					e := ast.Unparen(ix.Index)
+					if id, ok := e.(*ast.Ident); ok {
+						if as := ff.Assigns(info.ObjectOf(id)); len(as) == 1 && as[0].Rhs != nil {
+							e = ast.Unparen(as[0].Rhs)
+						}
+					}
+					good := false
+					if ce, ok := e.(*ast.CallExpr); ok && len(ce.Args) == 0 {
+						if sel, ok := ast.Unparen(ce.Fun).(*ast.SelectorExpr); ok && sel.Sel.Name == "String" {
+							if id, ok := ast.Unparen(sel.X).(*ast.Ident); ok && info.ObjectOf(id) == loc {
+								good = true
+							}
+						}
+					}
+					if good {
+						r.OK(key, p.Pos(ix.Pos()), "keyed by location.String()")
+					} else {
+						r.Bad(key, p.Pos(ix.Pos()), fmt.Sprintf("the cache is indexed with %s, which is not the String() of the location given to the reader: two locations that differ only in what the key leaves out (a query string, an opaque part) get the bytes of whichever was read first, and a reference resolves to the wrong document", core.ExprStr(e)))
+					}
+					return true
+				})
+				return false
+			})
+		}
+		if n == 0 {
+			core.Fail("no caching ReadFromURIFunc wrapper found in openapi3")
+		}
+	})
 }
